@@ -507,10 +507,23 @@ package writer
 // iteration has just emptied.  Ghost wipFlushedNow: the flush ran in this
 // iteration.
 //@ ghostdecl wipFlushedNow int
+// (C14: retention compares a segment's newest event time with the horizon.  The
+// flush at the top of an iteration can ROTATE the segment and reset its time
+// range, so an event's time is credited to the segment only after the event was
+// written into it — in the same iteration, with its own timestamp.  Ghost
+// evFilledNow.)
+//@ ghostdecl evFilledNow int
 //@ func (*SegStore).AddEntry
-//@   props C01
+//@   props C01 C14
 //@   assumecalleerequires
-//@   ghostinit ghost(0, "wipFlushedNow") == 0
+//@   ghostinit ghost(0, "wipFlushedNow") == 0 && ghost(0, "evFilledNow") == 0
+//@   loop 1:
+//@     invariant [no-event-waits-for-its-time-to-be-credited] ghost(0, "evFilledNow") == 0
+//@   site callret segstore.doLogEventFilling #1:
+//@     ghostset ghost(0, "evFilledNow") = 1
+//@   site call segstore.adjustEarliestLatestTimes #1:
+//@     assert [event-time-credited-to-the-segment-the-event-was-written-into] ghost(0, "evFilledNow") == 1 && arg1 == ple.timestampMillis
+//@     ghostset ghost(0, "evFilledNow") = 0
 //@   site callret segstore.AppendWipToSegfile #1:
 //@     ghostset ghost(0, "wipFlushedNow") = 1
 //@   site call segstore.doLogEventFilling #1:
@@ -566,4 +579,19 @@ package writer
 //@   loop 1:
 //@     invariant [slots-so-far-say-absent] 0 <= i && forall(k, 0, i, segstore.wipBlock.bmiColOffLen[k].Length == 0)
 //@   ensures [every-slot-starts-the-block-as-absent] forall(k, 0, len(segstore.wipBlock.bmiColOffLen), segstore.wipBlock.bmiColOffLen[k].Length == 0)
+//@ end
+
+// C01 (numbers sharing a column with strings come back as the text of the
+// number that was sent): when a mixed column is rewritten as strings at the
+// block flush, an integer record is written as the decimal text of its own 64
+// bits (never through a float: integers beyond 2^53 have no exact double).
+// Ghost convInt: the integer decoded from the record being converted.
+//@ ghostdecl convInt int
+//@ func convertColumnToStrings
+//@   props C01
+//@   assumecalleerequires
+//@   site callret utils.BytesToInt64LittleEndian #1:
+//@     ghostset ghost(0, "convInt") = result
+//@   site call newColWip.WriteSingleString #1:
+//@     assert [an-integer-record-becomes-the-decimal-text-of-its-own-value] arg1 == uf("decText", string, ghost(0, "convInt"))
 //@ end
